@@ -184,20 +184,26 @@ def consRULE5 (I : MinorInst) : List (LinCon NVar) :=
     if I.cn.positionCn I.gene m.pos == 0 || I.cov.coverage m == 0 then [⟨I.carrierTerms m, .le, 0⟩]
     else [⟨I.carrierTerms m, .le, I.cov.coverage m⟩, ⟨I.carrierTerms m, .ge, 1⟩]
 
+/-- rule 6, per slot: number of kept / addable variants at the site and the terms
+`len * A - sum(kept and added products)` -/
+def rule6Per (I : MinorInst) (pos : Int) : List (Nat × List (Rat × NVar)) :=
+  I.slots.map fun cs =>
+    let e := (keptAt cs.1 pos).map (fun m => NVar.MULK m cs.2) ++ (I.addAt cs.1 pos).map (fun m => NVar.MULN m cs.2)
+    (e.length, ((e.length : Rat), NVar.A cs.2) :: e.map neg)
+
+/-- rule 6, right-hand side: 0 without copies at the site, else `max(max(copies, reference reads), most variants of a slot)` -/
+def rule6Rhs (I : MinorInst) (pos : Int) : Rat :=
+  let maxMut : Nat := (I.rule6Per pos).foldl (fun acc p => if p.1 > acc then p.1 else acc) 0
+  let pc := I.cn.positionCn I.gene pos
+  if pc == 0 then 0
+  else
+    let c := I.cov.coverage (refMut' pos)
+    let b : Rat := if (pc : Rat) ≥ c then (pc : Rat) else c
+    if b ≥ (maxMut : Rat) then b else (maxMut : Rat)
+
 def consRULE6 (I : MinorInst) : List (LinCon NVar) :=
   if I.slots.isEmpty then [] else
-  I.positions.map fun pos =>
-    let per := I.slots.map fun cs =>
-      let e := (keptAt cs.1 pos).map (fun m => NVar.MULK m cs.2) ++ (I.addAt cs.1 pos).map (fun m => NVar.MULN m cs.2)
-      (e.length, ((e.length : Rat), NVar.A cs.2) :: e.map neg)
-    let maxMut : Nat := per.foldl (fun acc p => if p.1 > acc then p.1 else acc) 0
-    let terms := per.flatMap (·.2)
-    let pc := I.cn.positionCn I.gene pos
-    if pc == 0 then ⟨terms, .le, 0⟩
-    else
-      let c := I.cov.coverage (refMut' pos)
-      let b : Rat := if (pc : Rat) ≥ c then (pc : Rat) else c
-      ⟨terms, .le, if b ≥ (maxMut : Rat) then b else (maxMut : Rat)⟩
+  I.positions.map fun pos => ⟨(I.rule6Per pos).flatMap (·.2), .le, I.rule6Rhs pos⟩
 
 /-! ### phase block -/
 
